@@ -689,6 +689,9 @@ class Engine:
     # ---- call dispatch
     def dispatch(self, callee, argv, g, fr, dest_ty=''):
         callee = norm_path(callee)
+        for pat, fnm in self.cfg.get('stubs', []):      # per-harness environment stubs (in-crate code treated as environment; listed in the evidence)
+            if pat.fullmatch(callee):
+                self.models_used.add('stub:' + fnm.__name__); return fnm(self, callee, argv, g)
         name = self.lookup_callee(callee)
         if name is not None and not (name in self.mir.derived and name.endswith(('::clone', '::eq', '::default'))):
             return self.call(name, argv, g)     # in-crate code is executed from its own MIR
